@@ -46,7 +46,10 @@ def run_rules(prop: str, spec, ctx) -> List[Ob]:
     obs: List[Ob] = []
     for k, rule_fn in enumerate(spec['rules']):
         try:
-            obs.extend(rule_fn(ctx))
+            got = rule_fn(ctx)
+            for o_ in got:
+                o_.extra.setdefault('group', k + 1)
+            obs.extend(got)
         except (Inconclusive, C.CanonError) as e:
             obs.append(inconclusive(f"R{prop[1:]}.engine", f"rule group {k + 1} of {prop} can be evaluated on this tree",
                                     ctx.root if hasattr(ctx, 'root') else '', f"{type(e).__name__}: {e}",
@@ -146,7 +149,7 @@ EQUIVALENCE_RULES = {'R12.2', 'R12.3', 'R12.2-L2', 'R07.1', 'R07.1-L5', 'R07.1-h
 # ... unless the comparison was aligned and found different values: the two programs store, return or carry
 # different canonical values at an aligned point (as opposed to shapes that could not be aligned or conditions whose
 # equivalence needs an invariant the engine does not have)
-DEFINITE_MISMATCH_KINDS = ('value', 'store', 'store-count', 'return', 'effects', 'condition')
+DEFINITE_MISMATCH_KINDS = ('value', 'store', 'store-count', 'return', 'effects', 'condition', 'alloc')
 
 
 def _second_opinion(prop, spec, root, obs: List[Ob], out) -> List[Ob]:
@@ -171,6 +174,26 @@ def _second_opinion(prop, spec, root, obs: List[Ob], out) -> List[Ob]:
         print(f"{prop}: normal form not analysable ({e!r}); reporting on the source as written", file=out)
         return obs
     out_obs = list(obs)
+    # a rule group that could not be evaluated on the source as written (engine exception) but can be on the normal form: its
+    # obligations are those of the normal form (they enter the decision below like any other obligation of that form)
+    eng_rule = f"R{prop[1:]}.engine"
+    for o in [o for o in obs if o.rule == eng_rule and o.status == 'inconclusive']:
+        grp_id = (o.construct or '').rsplit('-', 1)[-1]
+        if any(o1.rule == eng_rule and (o1.construct or '') == (o.construct or '') for o1 in obs1):
+            continue
+        from_l1 = [o1 for o1 in obs1 if str(o1.extra.get('group')) == grp_id]
+        if from_l1:
+            for o1 in from_l1:
+                o1.extra['analysed'] = 'normal form'
+            out_obs = [x for x in out_obs if x is not o] + from_l1
+            print(f"{prop}: rule group {grp_id} evaluated on the normal form ({len(from_l1)} obligations)", file=out)
+    bad = {o.rule for o in out_obs if o.status == 'inconclusive'
+           or (o.status == 'violation' and known.match(prop, o) is None)}
+    counts = {}
+    for o in out_obs:
+        if o.status in ('ok', 'violation'):
+            counts[o.rule] = counts.get(o.rule, 0) + 1
+    bad |= {r for r, mn in mins.items() if counts.get(r, 0) < mn}
     for r in sorted(bad):
         alt = [o for o in obs1 if o.rule == r]
         dec = [o for o in alt if o.status in ('ok', 'violation')]
